@@ -86,7 +86,8 @@ type failingBody struct {
 
 func (b *failingBody) Read(p []byte) (int, error) {
 	if b.pos >= len(b.data) {
-		return 0, errors.New("sims3http: connection reset while reading the body")
+		// what net/http reports when the peer goes away before Content-Length bytes have arrived
+		return 0, io.ErrUnexpectedEOF
 	}
 	n := copy(p, b.data[b.pos:])
 	b.pos += n
